@@ -8,8 +8,9 @@ names="$@"; [ -z "$names" ] && names=$(ls seeded)
 for n in $names; do
   d=seeded/$n; [ -f $d/patch.diff ] || continue
   prop=$(python3 -c "import json;print(json.load(open('$d/meta.json'))['property'])" 2>/dev/null)
-  if ! git -C /repo apply --3way /verif/$d/patch.diff >/dev/null 2>&1; then
-     git -C /repo checkout -- . ; git -C /repo reset -q
+  pf=/verif/$d/patch.diff; [ -f /verif/$d/patch-rebased.diff ] && pf=/verif/$d/patch-rebased.diff
+  if ! git -C /repo apply --3way $pf >/dev/null 2>&1; then
+     git -C /repo reset -q --hard HEAD
      echo "$n: patch does not apply to the current /repo"; echo '{"applies": false}' > $d/result.json; continue
   fi
   git -C /repo reset -q   # --3way stages; keep it as a working-tree change only
